@@ -141,14 +141,31 @@ func ref(use map[string]interface{}) string {
 	return ""
 }
 
+// pathExpr renders a PATH of spec/Scenario.tla (an indexable list of one of the data sources) with an index expression:
+// users, items: file/csv sources; buyers, sellers: lists of the nested file/json source `market`; vlist, glist: lists of
+// strings of the `variables` source `vars` (top level / nested)
+func pathExpr(path, index string) string {
+	switch path {
+	case "buyers", "sellers":
+		return "source.market." + path + ".users[" + index + "].id"
+	case "vlist":
+		return "source.vars.list[" + index + "]"
+	case "glist":
+		return "source.vars.grp.list[" + index + "]"
+	}
+	return "source." + path + "[" + index + "].id"
+}
+
 func preMapping(pre map[string]interface{}, idx int) string {
 	switch vt.Str(pre["k"]) {
 	case "next":
-		return "source." + vt.Str(pre["of"]) + "[next].id"
+		return pathExpr(vt.Str(pre["of"]), "next")
 	case "last":
-		return "source." + vt.Str(pre["of"]) + "[last].id"
+		return pathExpr(vt.Str(pre["of"]), "last")
+	case "rand":
+		return pathExpr(vt.Str(pre["of"]), "rand")
 	case "idx":
-		return fmt.Sprintf("source.%s[%d].id", vt.Str(pre["of"]), idx)
+		return pathExpr(vt.Str(pre["of"]), fmt.Sprint(idx))
 	case "from":
 		return "request." + vt.Str(pre["of"]) + ".postprocessor.tok"
 	case "missing":
@@ -211,7 +228,38 @@ func renderReq(name string, d map[string]interface{}, idx int) reqRender {
 	return r
 }
 
+// sourcesYAML: the variable_sources section (lengths of the lists: spec/Scenario.tla PathRows)
+func sourcesYAML(dir string) string {
+	var b strings.Builder
+	b.WriteString("variable_sources:\n")
+	for _, s := range []string{"users", "items"} {
+		fmt.Fprintf(&b, "  - type: file/csv\n    name: %s\n    file: %s\n    fields: [id]\n", s, filepath.Join(dir, s+".csv"))
+	}
+	fmt.Fprintf(&b, "  - type: file/json\n    name: market\n    file: %s\n", filepath.Join(dir, "market.json"))
+	b.WriteString("  - type: variables\n    name: vars\n    variables:\n      list: [v0, v1]\n      grp:\n        list: [w0, w1, w2]\n")
+	return b.String()
+}
+
 func writeSources(dir string, rows int, special bool) {
+	var mj strings.Builder // nested file/json source: {"buyers": {"users": [rows+1 x {"id": "b<i>"}]}, "sellers": {"users": [rows x ...]}}
+	mj.WriteString(`{"buyers": {"users": [`)
+	for i := 0; i <= rows; i++ {
+		if i > 0 {
+			mj.WriteString(", ")
+		}
+		fmt.Fprintf(&mj, `{"id": "b%d"}`, i)
+	}
+	mj.WriteString(`]}, "sellers": {"users": [`)
+	for i := 0; i < rows; i++ {
+		if i > 0 {
+			mj.WriteString(", ")
+		}
+		fmt.Fprintf(&mj, `{"id": "s%d"}`, i)
+	}
+	mj.WriteString("]}}\n")
+	if err := os.WriteFile(filepath.Join(dir, "market.json"), []byte(mj.String()), 0o644); err != nil {
+		panic(err)
+	}
 	for _, s := range [][2]string{{"users", "r"}, {"items", "q"}} {
 		var b strings.Builder
 		for i := 0; i < rows; i++ {
@@ -230,10 +278,7 @@ func writeSources(dir string, rows int, special bool) {
 func scnRenderYAML(c map[string]interface{}, dir string) string {
 	var b strings.Builder
 	id := vt.Int(c["id"])
-	b.WriteString("variable_sources:\n")
-	for _, s := range []string{"users", "items"} {
-		fmt.Fprintf(&b, "  - type: file/csv\n    name: %s\n    file: %s\n    fields: [id]\n", s, filepath.Join(dir, s+".csv"))
-	}
+	b.WriteString(sourcesYAML(dir))
 	b.WriteString("requests:\n")
 	reqs := vt.Map(c["reqs"])
 	for _, name := range sortedNames(reqs) {
@@ -271,12 +316,35 @@ func scnRenderYAML(c map[string]interface{}, dir string) string {
 	b.WriteString("scenarios:\n")
 	for _, s := range vt.List(c["scens"]) {
 		sc := vt.Map(s)
-		fmt.Fprintf(&b, "  - name: %s\n    weight: %d\n    min_waiting_time: 0\n    requests:\n", vt.Str(sc["name"]), vt.Int(sc["weight"]))
-		for j, it := range vt.List(sc["items"]) {
-			fmt.Fprintf(&b, "      - %s\n", itemString(vt.Map(it), id+j))
-		}
+		b.WriteString(scenYAML(sc, id))
 	}
 	return b.String()
+}
+
+// scenYAML: one entry of the scenarios section (a scenario without requests is written as an empty list)
+func scenYAML(sc map[string]interface{}, id int) string {
+	var b strings.Builder
+	fmt.Fprintf(&b, "  - name: %s\n    weight: %d\n    min_waiting_time: %d\n", vt.Str(sc["name"]), vt.Int(sc["weight"]), vt.Int(sc["mwt"]))
+	if len(vt.List(sc["items"])) == 0 {
+		b.WriteString("    requests: []\n")
+		return b.String()
+	}
+	b.WriteString("    requests:\n")
+	for j, it := range vt.List(sc["items"]) {
+		fmt.Fprintf(&b, "      - %s\n", itemString(vt.Map(it), id+j))
+	}
+	return b.String()
+}
+
+// usesVarsSource: the case indexes a list of the `variables` source
+func usesVarsSource(c map[string]interface{}) bool {
+	for _, d := range vt.Map(c["reqs"]) {
+		switch vt.Str(vt.Map(vt.Map(d)["pre"])["of"]) {
+		case "vlist", "glist":
+			return true
+		}
+	}
+	return false
 }
 
 func scnRenderHCL(c map[string]interface{}, dir string) string {
@@ -285,6 +353,9 @@ func scnRenderHCL(c map[string]interface{}, dir string) string {
 	for _, s := range []string{"users", "items"} {
 		fmt.Fprintf(&b, "variable_source \"%s\" \"file/csv\" {\n  file = \"%s\"\n  fields = [\"id\"]\n}\n", s, filepath.Join(dir, s+".csv"))
 	}
+	fmt.Fprintf(&b, "variable_source \"market\" \"file/json\" {\n  file = \"%s\"\n}\n", filepath.Join(dir, "market.json"))
+	// (the HCL format types `variables` as a map of strings: the lists of the `vars` source cannot be written in it;
+	// cases that index them are rendered through YAML only, see usesVarsSource)
 	reqs := vt.Map(c["reqs"])
 	for _, name := range sortedNames(reqs) {
 		r := renderReq(name, vt.Map(reqs[name]), vt.Int(c["idx"]))
@@ -319,7 +390,7 @@ func scnRenderHCL(c map[string]interface{}, dir string) string {
 	}
 	for _, s := range vt.List(c["scens"]) {
 		sc := vt.Map(s)
-		fmt.Fprintf(&b, "scenario \"%s\" {\n  weight = %d\n  min_waiting_time = 0\n  requests = [\n", vt.Str(sc["name"]), vt.Int(sc["weight"]))
+		fmt.Fprintf(&b, "scenario \"%s\" {\n  weight = %d\n  min_waiting_time = %d\n  requests = [\n", vt.Str(sc["name"]), vt.Int(sc["weight"]), vt.Int(sc["mwt"]))
 		for j, it := range vt.List(sc["items"]) {
 			fmt.Fprintf(&b, "    \"%s\",\n", itemString(vt.Map(it), id+j))
 		}
@@ -452,10 +523,70 @@ func (p *barrierProvider) Acquire() (core.Ammo, bool) {
 	return sc, true
 }
 
+// obsStep / obsScen: a scenario as the REAL provider expanded it (what the gun is handed): the steps in order, each with
+// the pause that follows it, and min_waiting_time (whole milliseconds)
+type obsStep struct {
+	Name  string `json:"name"`
+	Sleep int    `json:"sleep"`
+}
+type obsScen struct {
+	Sc    string    `json:"sc"`
+	Mwt   int       `json:"mwt"`
+	Steps []obsStep `json:"steps"`
+}
+
+// obsSpan: one ammo between Acquire and Release at the provider (whole milliseconds, monotonic clock, rounded DOWN)
+type obsSpan struct {
+	Sc string `json:"sc"`
+	Ms int    `json:"ms"`
+}
+
+// spanProvider wraps the REAL provider and records, per ammo, the time between its Acquire and its Release (the instance
+// releases an ammo when Shoot has returned)
+type spanProvider struct {
+	core.Provider
+	mu    sync.Mutex
+	start map[core.Ammo]time.Time
+	spans []obsSpan
+}
+
+func ammoName(a core.Ammo) string {
+	switch x := a.(type) {
+	case *httpscenario.Scenario:
+		return x.Name
+	case *grpcscenario.Scenario:
+		return x.Name
+	}
+	return ""
+}
+
+func (p *spanProvider) Acquire() (core.Ammo, bool) {
+	a, ok := p.Provider.Acquire()
+	if ok {
+		p.mu.Lock()
+		p.start[a] = time.Now()
+		p.mu.Unlock()
+	}
+	return a, ok
+}
+
+func (p *spanProvider) Release(a core.Ammo) {
+	now := time.Now()
+	p.mu.Lock()
+	if t0, ok := p.start[a]; ok {
+		delete(p.start, a)
+		p.spans = append(p.spans, obsSpan{Sc: ammoName(a), Ms: int(now.Sub(t0) / time.Millisecond)})
+	}
+	p.mu.Unlock()
+	p.Provider.Release(a)
+}
+
 type caseObs struct {
 	Log      []scentarget.Entry `json:"log"`
 	Samples  []obsSample        `json:"samples"`
 	Ring     []string           `json:"ring"`
+	Steps    []obsScen          `json:"steps"`
+	Spans    []obsSpan          `json:"spans"`
 	BuildErr string             `json:"build_err"`
 	RunErr   string             `json:"run_err"`
 	Format   string             `json:"format"`
@@ -486,33 +617,48 @@ func runEngineWith(eng *engine.Engine, timeout time.Duration) string {
 	return ""
 }
 
-// ringOf asks a fresh real provider for its first n ammo and returns the scenario names
-func ringOf(payload string, n int, kind string) ([]string, error) {
+// ringOf asks a fresh real provider for its first n ammo and returns the scenario names and, per scenario (in order of
+// first appearance), the expanded steps
+func ringOf(payload string, n int, kind string) ([]string, []obsScen, error) {
 	conf, err := buildEngineConf(poolYAML("ring", kind, kind, payload, "127.0.0.1:1", 1, 1, ""), false)
 	if err != nil {
-		return nil, err
+		return nil, nil, err
 	}
 	p := conf.Engine.Pools[0].Provider
 	ctx, cancel := context.WithCancel(context.Background())
 	done := make(chan struct{})
 	go func() { _ = p.Run(ctx, core.ProviderDeps{Log: zap.NewNop(), PoolID: "ring"}); close(done) }()
 	out := []string{}
+	scens := []obsScen{}
+	seen := map[string]bool{}
 	for i := 0; i < n; i++ {
 		a, ok := p.Acquire()
 		if !ok {
 			break
 		}
+		o := obsScen{Steps: []obsStep{}}
 		switch x := a.(type) {
 		case *httpscenario.Scenario:
-			out = append(out, x.Name)
+			o.Sc, o.Mwt = x.Name, int(x.MinWaitingTime/time.Millisecond)
+			for _, r := range x.Requests {
+				o.Steps = append(o.Steps, obsStep{Name: r.Name, Sleep: int(r.Sleep / time.Millisecond)})
+			}
 		case *grpcscenario.Scenario:
-			out = append(out, x.Name)
+			o.Sc, o.Mwt = x.Name, int(x.MinWaitingTime/time.Millisecond)
+			for _, r := range x.Calls {
+				o.Steps = append(o.Steps, obsStep{Name: r.Name, Sleep: int(r.Sleep / time.Millisecond)})
+			}
+		}
+		out = append(out, o.Sc)
+		if !seen[o.Sc] {
+			seen[o.Sc] = true
+			scens = append(scens, o)
 		}
 		p.Release(a)
 	}
 	cancel()
 	<-done
-	return out, nil
+	return out, scens, nil
 }
 
 // scnTargets: the scripted targets of one worker (the gRPC one is started when the first grpc case comes along)
@@ -536,7 +682,7 @@ func runCase(c map[string]interface{}, tgts *scnTargets, root string, hcl bool, 
 	}
 	defer os.RemoveAll(dir)
 	writeSources(dir, vt.Int(c["rows"]), vt.Bool(c["special"]))
-	obs := caseObs{Log: []scentarget.Entry{}, Samples: []obsSample{}, Ring: []string{}, Format: "yaml"}
+	obs := caseObs{Log: []scentarget.Entry{}, Samples: []obsSample{}, Ring: []string{}, Steps: []obsScen{}, Spans: []obsSpan{}, Format: "yaml"}
 	tgt := tgts.http
 	payload := filepath.Join(dir, "payload.yaml")
 	text := scnRenderYAML(c, dir)
@@ -548,6 +694,9 @@ func runCase(c map[string]interface{}, tgts *scnTargets, root string, hcl bool, 
 		}
 		hcl, kind, addr, text = false, "grpc/scenario", tgts.grpc.Addr(), scnRenderGrpcYAML(c, dir)
 		tgts.grpc.ResetCase(script)
+	}
+	if hcl && usesVarsSource(c) {
+		hcl = false
 	}
 	if hcl {
 		payload, text, obs.Format = filepath.Join(dir, "payload.hcl"), scnRenderHCL(c, dir), "hcl"
@@ -565,19 +714,25 @@ func runCase(c map[string]interface{}, tgts *scnTargets, root string, hcl bool, 
 	if spin {
 		conf.Engine.Pools[0].Provider = &barrierProvider{Provider: conf.Engine.Pools[0].Provider, n: instances}
 	}
+	sp := &spanProvider{Provider: conf.Engine.Pools[0].Provider, start: map[core.Ammo]time.Time{}}
+	conf.Engine.Pools[0].Provider = sp
 	agg := &scnRecAggregator{}
 	obs.RunErr = scnRunEngine(conf, agg, 120*time.Second)
+	sp.mu.Lock()
+	obs.Spans = append(obs.Spans, sp.spans...)
+	sp.mu.Unlock()
 	obs.Log = tgt.Log()
 	if kind == "grpc/scenario" {
 		obs.Log = tgts.grpc.Log()
 	}
 	obs.Samples = agg.Samples()
 	tgt.DropConns()
-	ring, err := ringOf(payload, 30, kind)
+	ring, scens, err := ringOf(payload, 30, kind)
 	if err != nil {
 		obs.BuildErr = "ring: " + err.Error()
+	} else {
+		obs.Ring, obs.Steps = ring, scens
 	}
-	obs.Ring = ring
 	return obs
 }
 
